@@ -375,7 +375,7 @@ func fixedCases() []Case {
 		}
 		return d
 	}
-	for _, kind := range append([]string{"nokey"}, dkinds...) {
+	for _, kind := range []string{"v6", "mpls", "nokey", "nhg", "nh", "v4"} {
 		for o := 0; o < 4; o++ {
 			ign, inc := o&1 != 0, o&2 != 0
 			have := &Res{OpID: 1, Status: 2, Det: mk(kind, 1, "1"), SErr: "e1"}
